@@ -335,7 +335,7 @@ func (tp *TableParser) processVerticalMerges(table *ParsedTable) {
 	}
 
 	// Track merge starts for each column
-	mergeStarts := make([]int, colCount) // Row index where merge started
+	mergeStarts := make([]int, colCount) // Row index where the current merge region started
 	for i := range mergeStarts {
 		mergeStarts[i] = -1
 	}
@@ -344,25 +344,25 @@ func (tp *TableParser) processVerticalMerges(table *ParsedTable) {
 		colIdx := 0
 		for cellIdx := range row.Cells {
 			cell := &table.Rows[rowIdx].Cells[cellIdx]
-
-			// Check if this cell starts a merge
-			if !cell.IsMergedContinuation && mergeStarts[colIdx] == -1 {
-				// Check if vMerge restart
-				// We need to look at the raw vMerge value
-				// For now, assume any cell that's not a continuation could start a merge
-				mergeStarts[colIdx] = rowIdx
+			if colIdx >= colCount {
+				break
 			}
 
-			if cell.IsMergedContinuation && mergeStarts[colIdx] >= 0 {
-				// Increment the row span of the merge start cell
-				startRow := mergeStarts[colIdx]
-				startColIdx := tp.findCellAtColumn(table.Rows[startRow], colIdx)
-				if startColIdx >= 0 {
-					table.Rows[startRow].Cells[startColIdx].RowSpan++
+			if cell.IsMergedContinuation {
+				// Extend the region that is open in this column
+				if startRow := mergeStarts[colIdx]; startRow >= 0 {
+					startColIdx := tp.findCellAtColumn(table.Rows[startRow], colIdx)
+					if startColIdx >= 0 {
+						table.Rows[startRow].Cells[startColIdx].RowSpan++
+					}
 				}
-			} else if !cell.IsMergedContinuation {
-				// Reset merge tracking for this column
-				mergeStarts[colIdx] = -1
+			} else {
+				// Every other cell (vMerge="restart" or no vMerge) ends the
+				// region above it and may itself be continued by the rows below
+				for c := 1; c < cell.ColSpan && colIdx+c < colCount; c++ {
+					mergeStarts[colIdx+c] = -1
+				}
+				mergeStarts[colIdx] = rowIdx
 			}
 
 			colIdx += cell.ColSpan
